@@ -15,6 +15,7 @@ DUR = '''TLA+ spec Durable.tla (replay engine across invocations: every handler'
 EXE = '''TLA+ spec Executor.tla (map/parallel branch machine: submission, worker pool bound, done-callback split into status write / policy decision / one-status-per-step suspend scan, timer resubmission, cancellation, result construction, orphan marking; completion policy and reason classifier transcribed) model-checked exhaustively with TLC over a sweep of branch scripts x max_concurrency x completion configs; real SDK programs with map/parallel (nested, early completion, failures, waits/retries/callbacks inside branches) executed over many invocations against ModelBackend under a deterministic scheduler with function durations, API latency and crashes; direct oracles on the delivered BatchResult, the backend's update stream and the observed concurrency'''
 
 CHECKS = {
+    "C16": dict(technique=DUR + "; map/parallel parts by campaigns of the real executor with direct oracles", text="TLC model checking of large child contexts (summary + ReplayChildren, body re-traversed on replay, no re-execution, large final result / error recorded first) + real executions with sizes limit-1/limit/limit+1, nested large contexts, summary generators, oversized map/parallel results and items, oversized final result and error, replay and crash after the summary: recorded payload <= limit, rebuilt value typed-equal, no new records, no function re-entry. Two genuine defects are recorded as known findings.", design_ref="DESIGN.md 3.4, 5 (C16)"),
     "C17": dict(technique=DUR + "; the replay-aware logger (first-page replay status, track_replay after returned operations, visited set) is part of Durable.tla with LOG instructions and the LoggerExact monitor", text="Exhaustive TLC model checking of programs with log calls between operations under every suspension/crash prefix and the first-page split + conformance: per invocation a log call is emitted iff no operation completed before the invocation began lies ahead of it; records carry the execution ARN. Four genuine deviations are recorded as known findings (named causes in the spec).", design_ref="DESIGN.md 3.4, 5 (C17)"),
     "C08": dict(technique="operation ids recomputed independently (blake2b of '<parent>-<n>' along the structural path encoded in operation names) and checked on every update of every invocation under schedules permuting branch start/completion order, in-process resubmission and re-invocation; structural ids are paths in Durable.tla/Executor.tla; gap-free per-context counters by OrderedLock.tla (C19)", text="Conformance campaign over nested sequential and map/parallel programs (ids, parent links, uniqueness, stability across invocations) with the TLA+ models using structural paths as identities; blake2b collision-freeness assumed.", design_ref="DESIGN.md 5 (C08)"),
     "C09": dict(technique=EXE, text="Exhaustive TLC sweep of the executor (ConcurrencyBound, ReturnsOnlyWhenDecided, ItemsFaithful, ReasonConsistent) + real executions: one item per input in order, reported items carry the branch's own result/error (ground truth recorded in the branch body), policy decided at return, reason consistent, concurrency limit, replayed BatchResult equal.", design_ref="DESIGN.md 3.5, 5 (C09)"),
